@@ -2,8 +2,7 @@
    `write_XML_file`) and prints what the model of the writer predicts an independent reader finds in the written file
    ("W" lines, or CRASH), the graph the document denotes ("G" lines = the specification) and the computed exception
    shapes.  Format: see checks/c20.py `lean_doc_lines`. -/
-import UtapModel.Model.XmlWrite
-import UtapModel.Model.XmlWriteFixed
+import UtapModel.Model.XmlWriteCfg
 open UtapModel.AM
 
 structure PS where
@@ -75,12 +74,19 @@ def shapeS : Shape → String
   | .unboundProcess => "crash:process-with-unbound-parameters"
 
 def report (id : String) (d : WDoc) : List String :=
-  [s!"BEGIN {id}", "SHAPES " ++ " ".intercalate ((docShapes d).eraseDups.map shapeS)] ++
-  (match writeXml d with
+  let c := cfgOfSource
+  -- the same writer with the crash sites repaired (branchpoints written, free process parameters tolerated): used by the
+  -- check only when the real writer survives a document on which the model of the current source predicts a crash
+  let cf : WCfg := { c with bps := true }
+  [s!"BEGIN {id}", s!"CFG prob={c.prob} ctrl={c.ctrl} bps={c.bps}",
+   "SHAPES " ++ " ".intercalate ((docShapes c d).eraseDups.map shapeS)] ++
+  (match writeXml c d with
    | none => ["CRASH"]
    | some x => graphLines "W" (readGraph x)) ++
-  graphLines "V" (readGraph (writeXmlFixed d)) ++
-  graphLines "G" (graphOf d) ++ [s!"END {id}"]
+  (match writeXml cf { d with procs := [] } with
+   | none => []
+   | some x => graphLines "V" (readGraph x)) ++
+  graphLines "G" (graphOf c d) ++ graphLines "H" (graphOf cf d) ++ [s!"END {id}"]
 
 partial def loop (h out : IO.FS.Stream) (id : String) (ps : PS) : IO Unit := do
   let line ← h.getLine
